@@ -89,7 +89,65 @@ func nameOf(m map[string]string, v string) string {
 	return v
 }
 
+// c16EveryAcceptedPacket: ReceiveMessage hands every packet that shouldDiscard
+// does not reject to the session's state machine (the send on s.messages): a
+// return without that send lies behind the discard verdict. Any further reason
+// to drop a received packet starves the state machine ("comes Up again once
+// its peer behaves").
+func c16EveryAcceptedPacket(c *Ctx) {
+	v := c.View("(*router/bfd.Session).ReceiveMessage")
+	if v == nil {
+		return
+	}
+	rule := "D3-accepted-packets-reach-the-state-machine"
+	var sends []*ssa.Send
+	var rets []*ssa.Return
+	for _, b := range v.Fn.Blocks {
+		for _, in := range b.Instrs {
+			switch x := in.(type) {
+			case *ssa.Send:
+				if v.S.Sym(x.Chan) == "recv.messages" {
+					sends = append(sends, x)
+				}
+			case *ssa.Return:
+				rets = append(rets, x)
+			}
+		}
+	}
+	if !c.Check(len(sends) == 1 && len(rets) >= 2, rule, v.Name()+":shape", v.Fn.Pos(),
+		fmt.Sprintf("%d send(s) on s.messages, %d return(s)", len(sends), len(rets))) {
+		return
+	}
+	ok := true
+	for _, r := range rets {
+		if instrDominates(sends[0], r) {
+			continue
+		}
+		discarded := false
+		for _, l := range dominatingLits(r.Block()) {
+			if l.Kind == "true" && l.Pos && v.S.Sym(l.X) == "router/bfd.shouldDiscard(arg0)#0" {
+				discarded = true
+			}
+		}
+		if !discarded {
+			ok = false
+			c.Fail(rule, v.Name()+":return-without-enqueue", r.Pos(),
+				"ReceiveMessage returns without handing the packet to the state machine although shouldDiscard did not reject it")
+		}
+	}
+	if ok {
+		c.OK(rule, v.Name()+":return-without-enqueue", v.Fn.Pos(), "every return either follows the send on s.messages or lies behind shouldDiscard(msg) == true")
+	}
+	// what is handed over is the received packet's state and discriminators
+	for f, src := range map[string]string{"State": "arg0.State", "MyDiscriminator": "arg0.MyDiscriminator",
+		"YourDiscriminator": "arg0.YourDiscriminator", "DetectMultiplier": "arg0.DetectMultiplier",
+		"DesiredMinTxInterval": "arg0.DesiredMinTxInterval", "RequiredMinRxInterval": "arg0.RequiredMinRxInterval"} {
+		v.RequireStore(rule, 1, "local:complit."+f, src)
+	}
+}
+
 func runC16(c *Ctx) {
+	c16EveryAcceptedPacket(c)
 	tr := c.Fn("router/bfd.transition")
 	run := c.View("(*router/bfd.Session).Run")
 	if tr == nil || run == nil {
